@@ -1080,7 +1080,10 @@ static int rtr_sync_receive_and_store_pdus(struct rtr_socket *rtr_socket)
 		pthread_setcancelstate(PTHREAD_CANCEL_DISABLE, &oldcancelstate);
 		pthread_cleanup_pop(0);
 
-		if (retval == TR_WOULDBLOCK) {
+		if (retval == TR_WOULDBLOCK || retval == TR_INTR) {
+			// An interrupted receive call in the middle of a response cannot be
+			// resumed: rtr_sync() would take what is left of this response for
+			// the beginning of a new one. Give the connection up, like on a timeout.
 			rtr_change_socket_state(rtr_socket, RTR_ERROR_TRANSPORT);
 			retval = RTR_ERROR;
 			goto cleanup;
